@@ -20,12 +20,22 @@ fn observe(m: &mut llguidance::Matcher) -> String {
     let mask = m.compute_mask().map(|v| format!("{:?}", mask_list(&v))).unwrap_or("err".into());
     let acc = m.is_accepting().map(|b| b.to_string()).unwrap_or("err".into());
     let ff = m.compute_ff_bytes();
+    if ff.len() > 10000 {
+        return "resource-limit".to_string();
+    }
     format!("mask={mask} acc={acc} ff={ff:?} stop={}", stop_code(m))
 }
 
-pub fn session(rng: &mut Rng, out: &mut Out, with_rollback: bool, prop: &str) {
-    let g = gen_gram(rng);
-    let (ws, eos) = if rng.chance(1, 6) { single_byte_vocab() } else { gen_engine_vocab(rng, 30) };
+pub fn session(rng: &mut Rng, out: &mut Out, with_rollback: bool, prop: &str, script: Option<ParsedSession>) {
+    let scripted = script.is_some();
+    let (g, ws, eos, script_ops) = match script {
+        Some(p) => (p.gram, p.ws, p.eos, p.ops),
+        None => {
+            let g = gen_gram(rng);
+            let (ws, eos) = if rng.chance(1, 6) { single_byte_vocab() } else { gen_engine_vocab(rng, 30) };
+            (g, ws, eos, vec![])
+        }
+    };
     let lark = g.to_lark();
     let env = make_env(&ws, eos, false);
     let Ok(mut m) = new_matcher(&env, &lark, &[]) else {
@@ -40,11 +50,11 @@ pub fn session(rng: &mut Rng, out: &mut Out, with_rollback: bool, prop: &str) {
     let mut last_mask: Option<Vec<u32>> = None;
     let mut n_rollbacks = 0;
     let mut limit_hit = false;
-    let nsteps = rng.range(6, 22);
+    let nsteps = if scripted { script_ops.len() } else { rng.range(6, 22) };
     let res = catch_unwind(AssertUnwindSafe(|| {
-        for _ in 0..nsteps {
+        for step in 0..nsteps {
             let k = rng.below(if with_rollback { 12 } else { 9 });
-            let op = match k {
+            let op = if scripted { script_ops[step].clone() } else { match k {
                 0 | 1 | 2 => Op::Mask,
                 3 | 4 => {
                     let t = match (&last_mask, rng.chance(9, 10)) {
@@ -65,13 +75,13 @@ pub fn session(rng: &mut Rng, out: &mut Out, with_rollback: bool, prop: &str) {
                 8 => Op::Invalidate,
                 9 | 10 => Op::Rollback(if hist.is_empty() { 0 } else { rng.range(1, hist.len().min(3)) }),
                 _ => Op::Reset,
-            };
+            } };
             let (r, mask) = run_op(&mut m, &op);
             let ok = !r.to_string().starts_with("(err");
             if !matches!(op, Op::Mask) {
                 let _ = run_op(&mut m_inv, &op);
             }
-            if is_resource_limit(&m) {
+            if is_resource_limit(&m) || (matches!(op, Op::FfBytes) && r.to_string().len() > 20000) {
                 limit_hit = true;
                 break;
             }
@@ -111,7 +121,7 @@ pub fn session(rng: &mut Rng, out: &mut Out, with_rollback: bool, prop: &str) {
                         // every observable equals that of an engine that never saw the tokens
                         if let Some(mut f) = fresh_replay(&env, &lark, &hist) {
                             let (a, b) = (observe(&mut m.deep_clone()), observe(&mut f));
-                            if a != b {
+                            if a != b && a != "resource-limit" && b != "resource-limit" {
                                 viol.push(format!("after rollback({n}) to {:?}: {} but an engine that never saw the tokens: {}", hist, a, b));
                             }
                         }
@@ -124,7 +134,7 @@ pub fn session(rng: &mut Rng, out: &mut Out, with_rollback: bool, prop: &str) {
                         n_rollbacks += 1;
                         if let Some(mut f) = fresh_replay(&env, &lark, &hist) {
                             let (a, b) = (observe(&mut m.deep_clone()), observe(&mut f));
-                            if a != b {
+                            if a != b && a != "resource-limit" && b != "resource-limit" {
                                 viol.push(format!("after reset: {} but a fresh engine: {}", a, b));
                             }
                         }
@@ -135,6 +145,9 @@ pub fn session(rng: &mut Rng, out: &mut Out, with_rollback: bool, prop: &str) {
             }
             ops.push(op);
             results.push(r);
+            if scripted {
+                continue;
+            }
             let (r, _) = run_op(&mut m, &Op::Stopped);
             let stopped = !r.to_string().starts_with("(stop 0 0");
             ops.push(Op::Stopped);
@@ -170,12 +183,19 @@ pub fn session(rng: &mut Rng, out: &mut Out, with_rollback: bool, prop: &str) {
 }
 
 pub fn run(rng: &mut Rng, out: &mut Out, tier: &str, with_rollback: bool, prop: &str) {
+    for line in corpus_lines(prop) {
+        if let Some(p) = parse_session(&line) {
+            let mut r = rng.fork(0xC0FFEE);
+            out.count("corpus_cases", 1);
+            session(&mut r, out, with_rollback, prop, Some(p));
+        }
+    }
     let n = if tier == "thorough" { 12000 } else { 1200 };
     for i in 0..n {
         let mut r = rng.fork(i as u64);
         if std::env::var("LLGVERIF_TRACE").is_ok() {
             eprintln!("case {i}");
         }
-        session(&mut r, out, with_rollback, prop);
+        session(&mut r, out, with_rollback, prop, None);
     }
 }
